@@ -248,6 +248,7 @@ class ChassisStatus(State):
             self.front_panel_button_capabilities = \
                     rsp.front_panel_button_capabilities
 
+        self.last_event = []
         if rsp.last_power_event.ac_failed:
             self.last_event.append('ac_failed')
         if rsp.last_power_event.power_overload:
@@ -259,6 +260,7 @@ class ChassisStatus(State):
         if rsp.last_power_event.power_is_on_via_ipmi_command:
             self.last_event.append('power_on_via_ipmi')
 
+        self.chassis_state = []
         if rsp.misc_chassis_state.chassis_intrusion_active:
             self.chassis_state.append('intrusion')
         if rsp.misc_chassis_state.front_panel_lockout_active:
